@@ -634,6 +634,23 @@ impl SelSpec {
     }
 }
 
+impl SelSpec {
+    /// ORDER BY keys that are not determined by the rows the query returns: under GROUP BY a bare column that is not a
+    /// group key, under DISTINCT an expression that is not in the select list. The engine then orders by the value of an
+    /// arbitrary row of each group, so two correct texts may legitimately return different orders (and, with LIMIT,
+    /// different rows).
+    pub fn order_is_arbitrary(&self) -> bool {
+        if self.orders.is_empty() {
+            return false;
+        }
+        let in_items = |x: &XS| self.items.iter().any(|it| matches!(it, Item::Expr(e, _) if e == x));
+        let in_groups = |x: &XS| self.groups.iter().any(|g| g == x);
+        let aggregate = |x: &XS| matches!(x, XS::Func(FuncK::Max | FuncK::Min | FuncK::Sum | FuncK::Count, _) | XS::CountStar);
+        let grouped = !self.groups.is_empty() || self.items.iter().any(|it| matches!(it, Item::Expr(e, _) if aggregate(e)));
+        self.orders.iter().any(|(x, _)| (grouped && !in_groups(x) && !aggregate(x)) || (self.distinct && !in_items(x)))
+    }
+}
+
 #[derive(Clone, Debug, PartialEq)]
 pub enum SelOp {
     Distinct,
